@@ -153,6 +153,14 @@ impl FaultTarget {
         }
     }
 
+    pub fn remove_ops(&self) -> u32 {
+        self.removes.get()
+    }
+
+    pub fn insert_ops(&self) -> u32 {
+        self.inserts.get()
+    }
+
     pub fn total_ops(&self) -> u32 {
         self.gets.get() + self.inserts.get() + self.removes.get()
     }
